@@ -11,6 +11,7 @@ LEVEL = "exploration"
 TECHNIQUE = ('deterministic simulation, replica coupling (TWIN): seeded biased random walks, real LookupEncoder/TermEncoder/encode_triple coupled event by event to real LookupDecoder/Decoder, mirrored-state invariant after every event')
 LEVEL_NOTE = ('seeded walks with a saturation figure, not closure of the state space (that would be model checking)')
 OPTIMIZED_EVERY = 25      # every 25th run is executed in a child interpreter started with python -O
+PBPY_EVERY = 50           # every 50th run (offset 6) is executed with protobuf's pure-Python backend
 COMPILED_EVERY = 25       # every 25th run (offset 12) is executed in a child that imports a mypyc build of the tree
 RUNS = {"quick": 40000, "thorough": 1500000}
 RULE = ("seeded biased random walks (hot keys, cyclic sweeps over size+1 keys, bursts, uniform) of 1..400 lookups "
